@@ -134,30 +134,174 @@ def _handles3(sp, s0, q1, q2, q3, pack1, clean1, pack2, clean2, small=False, cre
         w.cleanup()
 
 
-def handles3(sp: int, s0: int, q1: int, q2: int, q3: int, pack1: bool, clean1: bool, pack2: bool, clean2: bool) -> bool:
+def handles3_q0(sp: int, s0: int, q1: int, pack1: bool, clean1: bool, pack2: bool, clean2: bool) -> bool:
     """
-    pre: 1 <= sp <= 70000 and 1 <= s0 <= 70000 and 0 <= q1 <= 5 and 0 <= q2 <= 4 and 0 <= q3 <= 4
+    pre: 1 <= sp <= 70000 and 1 <= s0 <= 70000 and 0 <= q1 <= 5
     post: _
     """
-    return _handles3(sp, s0, q1, q2, q3, pack1, clean1, pack2, clean2)
+    return _handles3(sp, s0, q1, 0, 0, pack1, clean1, pack2, clean2, False, False)
 
 
-def handles3_small(sp: int, s0: int, q1: int, q2: int, q3: int, pack1: bool, clean1: bool, pack2: bool, clean2: bool) -> bool:
+def handles3_q1(sp: int, s0: int, q1: int, pack1: bool, clean1: bool, pack2: bool, clean2: bool) -> bool:
     """
-    The same with a tiny pack_size_target: every packed object sits in a pack of its own.
-    pre: 1 <= sp <= 70000 and 1 <= s0 <= 70000 and 0 <= q1 <= 5 and 0 <= q2 <= 4 and 0 <= q3 <= 4
+    pre: 1 <= sp <= 70000 and 1 <= s0 <= 70000 and 0 <= q1 <= 5
     post: _
     """
-    return _handles3(sp, s0, q1, q2, q3, pack1, clean1, pack2, clean2, True)
+    return _handles3(sp, s0, q1, 1, 1, pack1, clean1, pack2, clean2, False, False)
 
 
-def handles3_creator(sp: int, s0: int, q1: int, q2: int, q3: int, pack1: bool, clean1: bool, pack2: bool, clean2: bool, small: bool) -> bool:
+def handles3_q2(sp: int, s0: int, q1: int, pack1: bool, clean1: bool, pack2: bool, clean2: bool) -> bool:
     """
-    The long-open handle is the one that created the container (init_container) and never closed.
-    pre: 1 <= sp <= 70000 and 1 <= s0 <= 70000 and 0 <= q1 <= 5 and 0 <= q2 <= 4 and 0 <= q3 <= 4
+    pre: 1 <= sp <= 70000 and 1 <= s0 <= 70000 and 0 <= q1 <= 5
     post: _
     """
-    return _handles3(sp, s0, q1, q2, q3, pack1, clean1, pack2, clean2, small, True)
+    return _handles3(sp, s0, q1, 2, 2, pack1, clean1, pack2, clean2, False, False)
+
+
+def handles3_q3(sp: int, s0: int, q1: int, pack1: bool, clean1: bool, pack2: bool, clean2: bool) -> bool:
+    """
+    pre: 1 <= sp <= 70000 and 1 <= s0 <= 70000 and 0 <= q1 <= 5
+    post: _
+    """
+    return _handles3(sp, s0, q1, 3, 3, pack1, clean1, pack2, clean2, False, False)
+
+
+def handles3_q4(sp: int, s0: int, q1: int, pack1: bool, clean1: bool, pack2: bool, clean2: bool) -> bool:
+    """
+    pre: 1 <= sp <= 70000 and 1 <= s0 <= 70000 and 0 <= q1 <= 5
+    post: _
+    """
+    return _handles3(sp, s0, q1, 4, 4, pack1, clean1, pack2, clean2, False, False)
+
+
+def handles3_small_q0(sp: int, s0: int, q1: int, pack1: bool, clean1: bool, pack2: bool, clean2: bool) -> bool:
+    """
+    pre: 1 <= sp <= 70000 and 1 <= s0 <= 70000 and 0 <= q1 <= 5
+    post: _
+    """
+    return _handles3(sp, s0, q1, 0, 0, pack1, clean1, pack2, clean2, True, False)
+
+
+def handles3_small_q1(sp: int, s0: int, q1: int, pack1: bool, clean1: bool, pack2: bool, clean2: bool) -> bool:
+    """
+    pre: 1 <= sp <= 70000 and 1 <= s0 <= 70000 and 0 <= q1 <= 5
+    post: _
+    """
+    return _handles3(sp, s0, q1, 1, 1, pack1, clean1, pack2, clean2, True, False)
+
+
+def handles3_small_q2(sp: int, s0: int, q1: int, pack1: bool, clean1: bool, pack2: bool, clean2: bool) -> bool:
+    """
+    pre: 1 <= sp <= 70000 and 1 <= s0 <= 70000 and 0 <= q1 <= 5
+    post: _
+    """
+    return _handles3(sp, s0, q1, 2, 2, pack1, clean1, pack2, clean2, True, False)
+
+
+def handles3_small_q3(sp: int, s0: int, q1: int, pack1: bool, clean1: bool, pack2: bool, clean2: bool) -> bool:
+    """
+    pre: 1 <= sp <= 70000 and 1 <= s0 <= 70000 and 0 <= q1 <= 5
+    post: _
+    """
+    return _handles3(sp, s0, q1, 3, 3, pack1, clean1, pack2, clean2, True, False)
+
+
+def handles3_small_q4(sp: int, s0: int, q1: int, pack1: bool, clean1: bool, pack2: bool, clean2: bool) -> bool:
+    """
+    pre: 1 <= sp <= 70000 and 1 <= s0 <= 70000 and 0 <= q1 <= 5
+    post: _
+    """
+    return _handles3(sp, s0, q1, 4, 4, pack1, clean1, pack2, clean2, True, False)
+
+
+def handles3_creator_q0(sp: int, q1: int, maint1: bool, maint2: bool) -> bool:
+    """
+    (pack and clean go together in the creator cells; the first added object has 7 bytes)
+    pre: 1 <= sp <= 70000 and 0 <= q1 <= 5
+    post: _
+    """
+    return _handles3(sp, 7, q1, 0, 0, maint1, maint1, maint2, maint2, False, True)
+
+
+def handles3_creator_q1(sp: int, q1: int, maint1: bool, maint2: bool) -> bool:
+    """
+    (pack and clean go together in the creator cells; the first added object has 7 bytes)
+    pre: 1 <= sp <= 70000 and 0 <= q1 <= 5
+    post: _
+    """
+    return _handles3(sp, 7, q1, 1, 1, maint1, maint1, maint2, maint2, False, True)
+
+
+def handles3_creator_q2(sp: int, q1: int, maint1: bool, maint2: bool) -> bool:
+    """
+    (pack and clean go together in the creator cells; the first added object has 7 bytes)
+    pre: 1 <= sp <= 70000 and 0 <= q1 <= 5
+    post: _
+    """
+    return _handles3(sp, 7, q1, 2, 2, maint1, maint1, maint2, maint2, False, True)
+
+
+def handles3_creator_q3(sp: int, q1: int, maint1: bool, maint2: bool) -> bool:
+    """
+    (pack and clean go together in the creator cells; the first added object has 7 bytes)
+    pre: 1 <= sp <= 70000 and 0 <= q1 <= 5
+    post: _
+    """
+    return _handles3(sp, 7, q1, 3, 3, maint1, maint1, maint2, maint2, False, True)
+
+
+def handles3_creator_q4(sp: int, q1: int, maint1: bool, maint2: bool) -> bool:
+    """
+    (pack and clean go together in the creator cells; the first added object has 7 bytes)
+    pre: 1 <= sp <= 70000 and 0 <= q1 <= 5
+    post: _
+    """
+    return _handles3(sp, 7, q1, 4, 4, maint1, maint1, maint2, maint2, False, True)
+
+
+def handles3_creator_small_q0(sp: int, q1: int, maint1: bool, maint2: bool) -> bool:
+    """
+    (pack and clean go together in the creator cells; the first added object has 7 bytes)
+    pre: 1 <= sp <= 70000 and 0 <= q1 <= 5
+    post: _
+    """
+    return _handles3(sp, 7, q1, 0, 0, maint1, maint1, maint2, maint2, True, True)
+
+
+def handles3_creator_small_q1(sp: int, q1: int, maint1: bool, maint2: bool) -> bool:
+    """
+    (pack and clean go together in the creator cells; the first added object has 7 bytes)
+    pre: 1 <= sp <= 70000 and 0 <= q1 <= 5
+    post: _
+    """
+    return _handles3(sp, 7, q1, 1, 1, maint1, maint1, maint2, maint2, True, True)
+
+
+def handles3_creator_small_q2(sp: int, q1: int, maint1: bool, maint2: bool) -> bool:
+    """
+    (pack and clean go together in the creator cells; the first added object has 7 bytes)
+    pre: 1 <= sp <= 70000 and 0 <= q1 <= 5
+    post: _
+    """
+    return _handles3(sp, 7, q1, 2, 2, maint1, maint1, maint2, maint2, True, True)
+
+
+def handles3_creator_small_q3(sp: int, q1: int, maint1: bool, maint2: bool) -> bool:
+    """
+    (pack and clean go together in the creator cells; the first added object has 7 bytes)
+    pre: 1 <= sp <= 70000 and 0 <= q1 <= 5
+    post: _
+    """
+    return _handles3(sp, 7, q1, 3, 3, maint1, maint1, maint2, maint2, True, True)
+
+
+def handles3_creator_small_q4(sp: int, q1: int, maint1: bool, maint2: bool) -> bool:
+    """
+    (pack and clean go together in the creator cells; the first added object has 7 bytes)
+    pre: 1 <= sp <= 70000 and 0 <= q1 <= 5
+    post: _
+    """
+    return _handles3(sp, 7, q1, 4, 4, maint1, maint1, maint2, maint2, True, True)
 
 
 def _handles_clean(sp, s0, q1, vacuum, repack):
